@@ -63,6 +63,9 @@ type callCase struct {
 	Length uint64   `json:"length,omitempty"`
 
 	PreRename []byte `json:"pre_rename,omitempty"`
+	// Follow: after a call that the backend failed, another handle on the same
+	// entry is used (setattr | open | readlink-or-getattr); it must still reach the backend
+	Follow string `json:"follow,omitempty"`
 
 	Err     *errSpec    `json:"err,omitempty"`
 	RQID    [3]uint64   `json:"rqid,omitempty"`
@@ -305,6 +308,19 @@ func runCallCase(c callCase, st *callStats) *fail {
 		curName = string(c.PreRename)
 	}
 
+	// a second handle on the same entry, for the follow-up after a failed call
+	var h2 p9.File
+	h2ID := 0
+	if c.Follow != "" && c.Err != nil && derive == "walk" {
+		from := r.mock.NCalls()
+		pushWalk(kind)
+		_, nf, err := root.Walk([]string{curName})
+		if err != nil {
+			return failf("harness-derive", "HARNESS-ERROR second walk: %v", err)
+		}
+		h2, h2ID = nf, r.lastNew(from)
+		keep = append(keep, nf)
+	}
 	// the receiver's fid as seen on the wire when it was bound
 	for _, fr := range r.tap.since(0) {
 		if !fr.T {
@@ -318,8 +334,8 @@ func runCallCase(c callCase, st *callStats) *fail {
 				}
 			case refcodec.Twalk, refcodec.Twalkgetattr:
 				ns := m.Strs("wnames")
-				if (derive == "walk" || derive == "walkgetattr" || derive == "attach") && len(ns) == 1 && ns[0] == "w0" {
-					r.fidOf[recv] = m.U("newfid")
+				if _, known := r.fidOf[recv]; !known && (derive == "walk" || derive == "walkgetattr" || derive == "attach") && len(ns) == 1 && ns[0] == "w0" {
+					r.fidOf[recv] = m.U("newfid") // the first such walk bound the receiver (a later one the follow-up handle)
 				}
 				if derive == "create" && len(ns) == 0 {
 					r.fidOf[recv] = m.U("newfid")
@@ -701,6 +717,37 @@ func runCallCase(c callCase, st *callStats) *fail {
 		if !errors.Is(gotErr, linux.Errno(wantErrno)) {
 			return failf(fmt.Sprintf("errno-mapping:%s:%d", c.Err.Style, wantErrno), "%s: the backend failed with a %s error carrying errno %d, the caller got %v", what, c.Err.Style, wantErrno, gotErr)
 		}
+		if h2 != nil && c.Method != "Close" {
+			// the failed call changed nothing: another handle on the same entry still
+			// reaches the File it denotes
+			cm := r.mock.NCalls()
+			var ferr error
+			op := "SetAttr"
+			switch c.Follow {
+			case "open":
+				if kind.IsSymlink() {
+					_, ferr = h2.Readlink()
+					op = "Readlink"
+				} else {
+					_, _, ferr = h2.Open(p9.ReadOnly)
+					op = "Open"
+				}
+			case "getattr":
+				_, _, _, ferr = h2.GetAttr(p9.AttrMaskAll)
+				op = "GetAttr"
+			default:
+				ferr = h2.SetAttr(p9.SetAttrMask{Size: true}, p9.SetAttr{Size: 3})
+			}
+			reached := false
+			for _, rc := range r.mock.Calls(cm) {
+				if rc.Op == op && rc.File == h2ID {
+					reached = true
+				}
+			}
+			if ferr != nil || !reached {
+				return failf("handle-broken-by-failed-call:"+c.Method, "%s failed in the backend (errno %d); afterwards %s through another handle on the same entry returned %v and %s the backend File", what, wantErrno, op, ferr, map[bool]string{true: "reached", false: "did not reach"}[reached])
+			}
+		}
 		return nil
 	}
 	if gotErr != nil {
@@ -1050,6 +1097,12 @@ func genCallCase(rt *rapid.T) callCase {
 	if rapid.IntRange(0, 3).Draw(rt, "fail") == 0 {
 		e := genErrSpec(rt)
 		c.Err = &e
+	}
+	if c.Err != nil && rapid.Bool().Draw(rt, "followup") {
+		c.Follow = rapid.SampledFrom([]string{"setattr", "open", "getattr"}).Draw(rt, "follow")
+		if rapid.Bool().Draw(rt, "fw") {
+			c.Derive = "walk"
+		}
 	}
 	c.Name, c.Name2 = genSafeName(rt, "name"), genSafeName(rt, "name2")
 	c.Flags, c.Mode, c.UID, c.GID = genU32(rt, "flags"), genU32(rt, "mode"), genU32(rt, "uid"), genU32(rt, "gid")
